@@ -33,11 +33,12 @@ stage that can fail is followed by a returning error test. -/
 theorem pipeline_order : pipeline = modelPipeline ∧ everyStageGuarded = true := by decide
 
 /-- the repairs the model relies on are still in the source: CheckUnions assigns hasDefault,
-CheckFunctions checks argument and throws lists, ResolveFunction resolves their defaults, getEnum's
-recursion is guarded, handlePanic exits non-zero. -/
+CheckFunctions checks argument and throws lists (the throws list of a non-void function seeded with
+field 0 `success`), ResolveFunction resolves their defaults, getEnum's recursion is guarded,
+handlePanic exits non-zero. -/
 theorem code_facts :
     cfg.unionSetsHasDefault = true ∧ functionFieldsChecked = true ∧ functionDefaultsResolved = true ∧
-    getEnumGuarded = true ∧ cfg.handlePanicExits = true := by decide
+    getEnumGuarded = true ∧ cfg.handlePanicExits = true ∧ throwsCountSuccess = true := by decide
 
 /-- CheckAll still runs all five checks. -/
 theorem check_order_complete : ∀ c : CheckFn, c ∈ cfg.checkOrder := by
@@ -85,14 +86,14 @@ theorem dup_field_name_rejected (env : Env) (p : Program) (w : WF p) (hpp : env.
     (s : StructLike) (hs : s ∈ f.structLikes) (f1 f2 : Field) (a b c : List Field)
     (h : s.fields = a ++ f1 :: (b ++ f2 :: c)) (hn : f1.name = f2.name) : Rejected env p :=
   anywhere_in_graph env p w hpp i f hr hf .structLikes
-    (findSome?_ne_none hs (by rw [h]; exact fieldLoop_dup f1 f2 (Or.inr hn) a b c))
+    (findSome?_ne_none hs (by rw [h]; exact fieldLoop_dup f1 f2 (Or.inr hn) a b c [] []))
 
 theorem dup_field_id_rejected (env : Env) (p : Program) (w : WF p) (hpp : env.parsePanics = false)
     (i : Nat) (f : File) (hr : Reach p i) (hf : p.files[i]? = some f)
     (s : StructLike) (hs : s ∈ f.structLikes) (f1 f2 : Field) (a b c : List Field)
     (h : s.fields = a ++ f1 :: (b ++ f2 :: c)) (hn : f1.id = f2.id) : Rejected env p :=
   anywhere_in_graph env p w hpp i f hr hf .structLikes
-    (findSome?_ne_none hs (by rw [h]; exact fieldLoop_dup f1 f2 (Or.inl hn) a b c))
+    (findSome?_ne_none hs (by rw [h]; exact fieldLoop_dup f1 f2 (Or.inl hn) a b c [] []))
 
 theorem dup_function_rejected (env : Env) (p : Program) (w : WF p) (hpp : env.parsePanics = false)
     (i : Nat) (f : File) (hr : Reach p i) (hf : p.files[i]? = some f)
@@ -113,8 +114,26 @@ theorem dup_argument_rejected (env : Env) (p : Program) (w : WF p) (hpp : env.pa
       rw [hg]
       refine funcLoop_fields g ?_ pre post
       rcases h with h | h
-      · exact Or.inl (by rw [h]; exact fieldLoop_dup f1 f2 hn a b c)
-      · exact Or.inr (by rw [h]; exact fieldLoop_dup f1 f2 hn a b c)))
+      · exact Or.inl (by rw [h]; exact fieldLoop_dup f1 f2 hn a b c [] [])
+      · exact Or.inr (by rw [h]; exact fieldLoop_dup f1 f2 hn a b c _ _)))
+
+/-- a throws member of a function that returns a value may not reuse the id 0 or the name `success`
+of the return value (both sit in the synthesized `<func>_result` struct) — since ef66a8a -/
+theorem throws_reuses_success_rejected (env : Env) (p : Program) (w : WF p) (hpp : env.parsePanics = false)
+    (i : Nat) (f : File) (hr : Reach p i) (hf : p.files[i]? = some f)
+    (s : Service) (hs : s ∈ f.services) (g : Func) (pre post : List Func) (hg : s.funcs = pre ++ g :: post)
+    (hv : g.void = false) (t : Field) (a c : List Field) (h : g.throws = a ++ t :: c)
+    (hn : t.id = 0 ∨ t.name = successName) : Rejected env p :=
+  anywhere_in_graph env p w hpp i f hr hf .functions
+    (findSome?_ne_none hs (by
+      rw [hg]
+      refine funcLoop_fields g (Or.inr ?_) pre post
+      rw [h]
+      apply fieldLoop_seeded
+      simp only [throwsSeedIds, throwsSeedNames, hv]
+      rcases hn with hn | hn
+      · exact Or.inl (by simp [hn])
+      · exact Or.inr (by simp [hn])))
 
 theorem dup_enum_value_name_rejected (env : Env) (p : Program) (w : WF p) (hpp : env.parsePanics = false)
     (i : Nat) (f : File) (hr : Reach p i) (hf : p.files[i]? = some f)
@@ -338,6 +357,19 @@ def argDefaultRegression : Program :=
       [⟨1, [97], .base, true, [[78, 111]]⟩], []⟩]⟩] }], 0⟩
 
 theorem argument_default_regression : (run cfg env0 argDefaultRegression).outcome = .reject .resolve := by decide
+
+/-- `i32 g() throws (1: … success)` and `i32 h() throws (0: … e)` are rejected; the same members in a
+void function and in an argument list stay accepted -/
+def successThrowsRegression (void : Bool) (id : Int) (nm : Name) : Program :=
+  ⟨[{ file0 with services := [⟨[83], [], [⟨[103], false, void, .base, [⟨0, successName, .base, false, []⟩],
+      [⟨id, nm, .base, false, []⟩]⟩]⟩] }], 0⟩
+
+theorem throws_reuses_success_regression :
+    (run cfg env0 (successThrowsRegression false 1 successName)).outcome = .reject .check ∧
+    (run cfg env0 (successThrowsRegression false 0 [101])).outcome = .reject .check ∧
+    (run cfg env0 (successThrowsRegression true 1 successName)).outcome = .ok ∧
+    (run cfg env0 (successThrowsRegression true 0 [101])).outcome = .ok ∧
+    (run cfg env0 (successThrowsRegression false 1 [101])).outcome = .ok := by decide
 
 /-- `m: include "a.b.thrift" include "a.thrift" const i32 x = a.b.c`, `a.b.thrift: const i32 c = 1`,
 `a.thrift: enum b { c }` — the identifier has two readings (constant `c` of include `a.b`, value `c` of
